@@ -264,6 +264,49 @@ def run(ctx):
                     ctx.violation("value-depends-on-call-history", "after %s on the same TheJoker the likelihood vector differs "
                                   "bitwise from a fresh sampler's" % hist, dict(desc, history=hist))
                     break
+            # the library OBJECT is modified in place between two calls (a column replaced): the second call must see
+            # the new values - nothing may be remembered from the first call
+            if pb.exact:
+                import astropy.units as _u
+                libm = session.gen.build_samples(pb.rows, units={"s": pb.du}, ln_prior=True)
+                jm = TheJoker(pb.prior, rng=np.random.default_rng(3), tempfile_path=ctx.tmpdir)
+                im = bool(rng.random() < 0.6)
+                jm.marginal_ln_likelihood(pb.data, libm, in_memory=im)
+                jm.rejection_sample(pb.data, libm, in_memory=im)
+                new_s = (np.asarray(pb.s_seen) + pb.dspec["err_scale_kms"] * session.gen.conv(1, "km/s", pb.du)) * session.gen.U(pb.du)
+                which = str(rng.choice(["s", "e", "wrap"]))
+                if which == "s":
+                    libm["s"] = new_s
+                elif which == "e":
+                    libm["e"] = np.clip(np.asarray(libm["e"]) * 0.5, 0, 0.9)
+                else:
+                    libm["omega"] = (np.asarray(libm["omega"].to_value(_u.rad)) + 0.25) * _u.rad
+                got = np.asarray(jm.marginal_ln_likelihood(pb.data, libm, in_memory=im))
+                fresh = session.gen.build_samples(dict(P=pb.rows["P"], e=np.asarray(libm["e"]), omega=np.asarray(libm["omega"].to_value(_u.rad)),
+                                                       M0=pb.rows["M0"], s_kms=pb.rows["s_kms"]), units={"s": pb.du})
+                fresh["s"] = libm["s"]
+                want = np.asarray(TheJoker(pb.prior).marginal_ln_likelihood(pb.data, fresh, in_memory=True))
+                ctx.evaluations += 1
+                ctx.distinct.add(repr(("library-mutated-in-place", which, im)))
+                if bits(got) != bits(want):
+                    ctx.violation("stale-library-after-in-place-change", "after replacing column %r of the same JokerSamples object the "
+                                  "likelihoods are not those of the modified library (max |diff| %.3g; %d of %d equal the OLD values)"
+                                  % (which, float(np.nanmax(np.abs(got - want))), int(np.sum(got == base)), N), dict(desc, column=which, in_memory=im))
+            # the user's own CONTAINER of data sets is modified in place between two calls on one TheJoker
+            if pb.ps["n_offsets"] == 0:
+                other = session.make_problem(ctx.rng(i, 9), N=3, n_offsets=0, poly_trend=pb.ps["poly_trend"])
+                box = [pb.data]
+                jd = TheJoker(pb.prior, rng=np.random.default_rng(4), tempfile_path=ctx.tmpdir)
+                first = np.asarray(jd.marginal_ln_likelihood(box, pb.lib, in_memory=bool(rng.random() < 0.5)))
+                box[0] = other.data
+                second = np.asarray(jd.marginal_ln_likelihood(box, pb.lib, in_memory=bool(rng.random() < 0.5)))
+                want2 = np.asarray(TheJoker(pb.prior).marginal_ln_likelihood(other.data, pb.lib, in_memory=True))
+                ctx.evaluations += 1
+                ctx.distinct.add(repr(("data-container-mutated-in-place",)))
+                if bits(first) != bits(base) or bits(second) != bits(want2):
+                    ctx.violation("stale-data-after-in-place-change", "after replacing the data set inside the list passed to the same "
+                                  "TheJoker the likelihoods are not those of the new data (%d of %d equal the OLD data's values)"
+                                  % (int(np.sum(second == base)), N), desc)
             # rejection: equal seeds => equal accepted tag set on every path
             seed = int(rng.integers(0, 2 ** 31))
             sets = {}
